@@ -29,7 +29,13 @@ Recip == /\ op = "init" /\ op' = "rdiv" /\ res' = OpRDiv(x) /\ UNCHANGED <<x, y,
 Triple == /\ op = "init" /\ x \in Small /\ op' = "assoc"
           /\ \E yy \in Small, zz \in Small : y' = yy /\ z' = zz /\ res' = OpMul(OpMul(x, yy), zz)
           /\ UNCHANGED <<x, k>>
-Next == Binary \/ Power \/ Recip \/ Triple
+\* UnitsContainer.add / remove / rename (and ParserHelper * "name", / "name", which go through add)
+Edit == /\ op = "init" /\ UNCHANGED <<x, k>>
+        /\ \/ \E n \in Names, e \in ExpPool : op' = "add1" /\ y' = Single(n, e) /\ z' = Empty /\ res' = OpMul(x, Single(n, e))
+           \/ \E n \in DOMAIN x : op' = "remove" /\ y' = Single(n, One) /\ z' = Empty /\ res' = Remove(x, {n})
+           \/ \E n \in DOMAIN x, m \in Names \ DOMAIN x :
+                 op' = "rename" /\ y' = Single(n, One) /\ z' = Single(m, One) /\ res' = Rename(x, n, m)
+Next == Binary \/ Power \/ Recip \/ Triple \/ Edit
 Spec == Init /\ [][Next]_vars
 
 \* ---- laws (C04) ----
@@ -38,6 +44,10 @@ OperationalIsDeclarative ==
     /\ op = "div" => res = Div(x, y)
     /\ op = "pow" => res = Pow(x, k)
     /\ op = "rdiv" => res = Inv(x)
+EditLaws == /\ op = "add1" => res = Add1(x, CHOOSE n \in DOMAIN y : TRUE, y[CHOOSE n \in DOMAIN y : TRUE])
+            /\ op = "remove" => DOMAIN res = DOMAIN x \ DOMAIN y /\ \A n \in DOMAIN res : res[n] = x[n]
+            /\ op = "rename" => LET n == CHOOSE q \in DOMAIN y : TRUE  m == CHOOSE q \in DOMAIN z : TRUE IN
+                                    Exp(res, m) = x[n] /\ n \notin DOMAIN res /\ Remove(res, {m}) = Remove(x, {n})
 Canonical == IsContainer(res)                                  \* no zero exponent survives
 Commutative == op = "mul" => res = OpMul(y, x)
 Associative == op = "assoc" => res = OpMul(x, OpMul(y, z)) /\ OpDiv(OpDiv(x, y), z) = OpDiv(x, OpMul(y, z))
